@@ -87,7 +87,7 @@ func gesc(args []string) error {
 				}
 				for v := 0; v < *variants; v++ {
 					h := (i*3+style)*7 + v*13
-					pre := bytes.Repeat([]byte{'p'}, h%64)        // escape at message offset 2+pre (mod 64 rotates)
+					pre := bytes.Repeat([]byte{'p'}, h%64) // escape at message offset 2+pre (mod 64 rotates)
 					if v%2 == 1 {
 						pre = bytes.Repeat([]byte{'p'}, 20+h%12) // offsets 20..31 of the 32-byte window
 					}
